@@ -157,7 +157,7 @@ def readback_guard(ctx, sc) -> Optional[str]:
     return None
 
 
-def run(ctx):
+def run(ctx, rule="C16.G"):
     repo, ev = ctx.repo, ctx.ev
     n_sinks = 0
     # ---- (a) immediates in serialize() ------------------------------------
@@ -172,7 +172,7 @@ def run(ctx):
         ctx.fn(q + ".serialize")
         ser = I.analyse_serialize(repo, s, fn)
         if ser.struct is None:
-            ctx.error("C16.G", f"{s.name}.serialize builds no struct")
+            ctx.error(rule, f"{s.name}.serialize builds no struct")
             continue
         sfields = {n: (t, b) for n, t, b in wire.struct_fields(ev, ser.struct)}
         names = list(sfields)
@@ -181,7 +181,23 @@ def run(ctx):
         for n in ast.walk(fn):
             if isinstance(n, ast.Call) and repo.resolve_class(s.module, n.func) is ser.struct:
                 call_node = n
+        # every scalar field of the struct must get its value from an analysable, guarded source: starred or ** arguments hide
+        # which value reaches which field, and positional values bypass the read-back guard (it iterates over keywords)
+        ctor = call_node
+        hidden = [src(a) for a in (ctor.args if ctor is not None else []) if isinstance(a, ast.Starred)] + ["**" + src(k.value) for k in (ctor.keywords if ctor is not None else []) if k.arg is None]
+        covered = set()
+        for k in ser.fields:
+            if not k.startswith("_pos"):
+                covered.add(k)
+            elif not isinstance(ser.fields[k], ast.Starred) and int(k[4:]) < len(names):
+                covered.add(names[int(k[4:])])
+        uncovered = [f_ for f_, (t_, b_) in sfields.items() if isinstance(t_, CScalar) and f_ not in covered and f_ != names[0] and not f_.lower().startswith("pad")]
+        ctx.check(rule, f"{s.name}->{ser.struct.name}:every-field-from-a-named-source", not hidden and not uncovered,
+                  f"{s.name}.serialize passes {hidden or 'no value'} to {ser.struct.name}(...) so that field(s) {uncovered} receive values the guards cannot be matched to "
+                  f"(the read-back guard of {ser.struct.name}.__init__ only sees keyword arguments): an out-of-range operand is truncated silently", s.loc(fn), trivial=True)
         for k, v in ser.fields.items():
+            if isinstance(v, ast.Starred):
+                continue
             by_kw = not k.startswith("_pos")
             f = k if by_kw else names[int(k[4:])]
             cl = c01._classify_ser(v)
@@ -200,7 +216,7 @@ def run(ctx):
                 if rb_cache[ser.struct.qualname] == "full":
                     strength = "full"
                     notes.append(f"read-back guard in {ser.struct.name}.__init__ (inherited) over keyword arguments")
-            ctx.check("C16.G", f"{what}:guard", strength == "full",
+            ctx.check(rule, f"{what}:guard", strength == "full",
                       f"{what}: value {src(v)} reaches a {wire.kind_name(t)} field (range {lo}..{hi}) with guard strength '{strength}'; "
                       f"ctypes truncates silently, an out-of-range operand encodes as a different valid-looking one",
                       s.loc(fn), facts={"strength": strength, "notes": notes},
@@ -245,7 +261,7 @@ def run(ctx):
                         ok = all(isinstance(x, int) and lo <= x <= hi for x in vals)
                 # plus a type assertion that the attribute is a member of that enum must dominate
                 strength = "full" if ok else "none"
-                ctx.check("C16.G", f"{what}:guard", ok, f"{what}: enum values {vals} do not all fit the field range {lo}..{hi}", c.loc(fn),
+                ctx.check(rule, f"{what}:guard", ok, f"{what}: enum values {vals} do not all fit the field range {lo}..{hi}", c.loc(fn),
                           sample={"sink": what, "range": [lo, hi], "enum_values": vals})
                 continue
             strength, notes = local_guard_strength(ctx, c, m, fn, ret, v, lo, hi, what)
@@ -255,7 +271,7 @@ def run(ctx):
                 notes += n2
             if strength != "full" and by_kw and readback_guard(ctx, sc) == "full":
                 strength = "full"
-            ctx.check("C16.G", f"{what}:guard", strength == "full",
+            ctx.check(rule, f"{what}:guard", strength == "full",
                       f"{what}: value {src(v)} reaches a {'%d-bit' % bits if bits else wire.kind_name(t)} field (range {lo}..{hi}) with guard strength '{strength}'",
                       c.loc(fn), facts={"strength": strength, "notes": notes}, sample={"sink": what, "range": [lo, hi], "strength": strength, "guard": notes[-1] if notes else None})
     # ---- (c) metadata ------------------------------------------------------
@@ -287,12 +303,12 @@ def run(ctx):
                 strength, notes = local_guard_strength(ctx, sub, sub.module, cs, call, v, lo, hi, what)
                 if strength != "full" and by_kw and readback_guard(ctx, md) == "full":
                     strength = "full"
-                ctx.check("C16.G", f"{what}:guard", strength == "full",
+                ctx.check(rule, f"{what}:guard", strength == "full",
                           f"{what}: {src(v)} reaches a {wire.kind_name(t)} field (range {lo}..{hi}) with guard strength '{strength}'", sub.loc(cs),
                           facts={"strength": strength, "notes": notes}, sample={"sink": what, "range": [lo, hi], "strength": strength, "guard": notes[-1] if notes else None})
     if not found:
-        ctx.error("C16.G", "Subroutine.cstructs does not construct encoding.Metadata")
-    ctx.anchor("C16.G", "narrow sinks at the encode boundary", n_sinks, 17)
+        ctx.error(rule, "Subroutine.cstructs does not construct encoding.Metadata")
+    ctx.anchor(rule, "narrow sinks at the encode boundary", n_sinks, 17)
     # no other constructor of command structs outside serialize(): who-may-call
     cmd = enc.classes.get("Command")
     others = 0
@@ -305,13 +321,17 @@ def run(ctx):
             c = repo.resolve_class(mod, call.func)
             if c is not None and cmd in repo.mro(c) and c is not cmd:
                 others += 1
-                ctx.check("C16.G", f"{qn}:constructs-{c.name}", False, f"{qn} constructs encoding.{c.name} outside a serialize() method; its operands bypass the analysed boundary", repo.loc(mod, call))
-    ctx.check("C16.G", "who-constructs-command-structs", True, sample={"constructors outside serialize()": others}, trivial=True)
+                ctx.check(rule, f"{qn}:constructs-{c.name}", False, f"{qn} constructs encoding.{c.name} outside a serialize() method; its operands bypass the analysed boundary", repo.loc(mod, call))
+    ctx.check(rule, "who-constructs-command-structs", True, sample={"constructors outside serialize()": others}, trivial=True)
 
 
 OP = "netqasm/lang/operand.py"
 E = "netqasm/lang/encoding.py"
 SEEDS = [
+    dict(id="c16-starred-immediates", file="netqasm/lang/instr/base.py", expect="C16.G", construct="every-field-from-a-named-source",
+         old="        c_struct = encoding.RegRegImm4Command(\n            id=self.id,\n            reg0=self.reg0.cstruct,\n            reg1=self.reg1.cstruct,\n            imm0=self.imm0.value,\n            imm1=self.imm1.value,\n            imm2=self.imm2.value,\n            imm3=self.imm3.value,\n        )",
+         new="        imms = [self.imm0.value, self.imm1.value, self.imm2.value, self.imm3.value]\n        c_struct = encoding.RegRegImm4Command(self.id, self.reg0.cstruct, self.reg1.cstruct, *imms)"),
+
     dict(id="c16-drop-reg-guard", file=OP, expect="C16.G", construct="operand.Register.index",
          old="        if not 0 <= self.index < 2**encoding.REG_INDEX_BITS:\n            raise ValueError(f\"register index {self.index} cannot be encoded\")\n", new=""),
     dict(id="c16-weaken-reg-guard-upper", file=OP, expect="C16.G", construct="operand.Register.index",
